@@ -405,6 +405,16 @@ func (n *Node) Export() types.AppState {
 	return n.App.CurrentState().Export()
 }
 
+// ExportCommitted exports the last committed height through a separate state object (what the API
+// does for a query with a height): the live state's caches are not touched.
+func (n *Node) ExportCommitted() types.AppState {
+	st, err := n.App.GetStateForHeight(n.LastHeight)
+	if err != nil || st == nil {
+		return n.Export()
+	}
+	return st.Export()
+}
+
 // ExportJSON is the canonical JSON of the export.
 func (n *Node) ExportJSON() []byte {
 	e := n.Export()
